@@ -2113,10 +2113,12 @@ func (t *tScreen) disengage() {
 	ti := t.ti
 	t.cells.Resize(0, 0)
 	t.TPuts(ti.ShowCursor)
-	if t.cursorStyles != nil && t.cursorStyle != CursorStyleDefault {
+	// What the application asks for now says nothing about what an
+	// earlier Show sent, so put shape and colour back like everything else.
+	if t.cursorStyles != nil {
 		t.TPuts(t.cursorStyles[CursorStyleDefault])
 	}
-	if t.cursorFg != "" && t.cursorColor.Valid() {
+	if t.cursorFg != "" {
 		t.TPuts(t.cursorFg)
 	}
 	t.TPuts(ti.ResetFgBg)
